@@ -367,7 +367,8 @@ impl Gen {
             }
             if self.rng.chance(self.cfg.p_unknown_dep) {
                 let at = self.rng.below(deps.len() as u64 + 1) as usize;
-                deps.insert(at, format!("nope{}", tag));
+                // the empty name is never a registered name, however many unnamed systems there are
+                deps.insert(at, if self.rng.chance(30) { String::new() } else { format!("nope{}", tag) });
                 if self.rng.chance(30) {
                     deps.push(format!("nada {}", tag));
                 }
